@@ -20,7 +20,8 @@ func init() { keepResult = checker.Keep }
 func TestMain(m *testing.M) { vk.Main(m, "C14") }
 
 type Case struct {
-	Op     string   `json:"op"` // join | getw | slice
+	Op     string   `json:"op"` // join | getw | slice | maxslice | maxgetw
+	Max    int      `json:"max,omitempty"` // maxslice/maxgetw: description of the maximum bitmap (exactly 2^25 words = 2^31 bits, gen.UseMax)
 	W      int32    `json:"w,omitempty"`
 	Values vk.Words `json:"values,omitempty"`
 	Words  vk.Words `json:"words,omitempty"`
@@ -35,6 +36,7 @@ var checker = &vk.Checker[Case]{
 	ID: "C14",
 	Rule: "Join: width in {1,2,4,8,16,32,64} x value lists of length 0..200 whose values carry bits above the width (random, all-ones, 1<<w); result checked bit by bit, length ceil(len*w/64), Getw at every index; Getw alone on arbitrary bitmaps at every index; " +
 		"Slice on bitmaps <= 12 words (thorough <= 100) x ranges 0<=from<=to<=64*len (aligned, unaligned, empty, multi-word): length ceil((to-from)/64), bit j = input bit from+j, remaining bits 0, input unchanged. Grid: Slice on 12 bitmaps of <= 3 words x all (from,to); Join/Getw all widths x lengths 0..20 x 3 value styles. " +
+		"Also the MAXIMUM bitmap - exactly 2^25 words = 2^31 bits, the largest one int32 positions address (three sparse descriptions, oracle from the description): Slice of short ranges ending at the top and around every set word, Getw at the last indexes of every width; thorough also slices the whole bitmap. " +
 		"Non-trivial: Join with w>=4, >=2 values and a value with bits above w; Slice with unaligned from spanning >= 2 input words; Getw with w>=4 on a bitmap with both 0 and 1 bits. Distinct by hash of the case.",
 	Check:    check,
 	Classify: classify,
@@ -192,8 +194,99 @@ func checkSlice(keep []uint64, from, to int32) (f *vk.Failure) {
 	return nil
 }
 
+// checkMaxSlice: Slice on the largest bitmap whose positions fit an int32 (sparse oracle from its description).
+func checkMaxSlice(v int, from, to int32) *vk.Failure {
+	if v < 0 || v >= gen.MaxVariants || from < 0 || from > to {
+		return nil
+	}
+	words := gen.UseMax(v)
+	var r []uint64
+	if f := vk.Try(fmt.Sprintf("Slice(2^25 words (description %d), %d, %d)", v, from, to), func() { r = bitmap.Slice(words, from, to) }); f != nil {
+		return f
+	}
+	n, set := gen.MaxSlice(int64(from), int64(to))
+	if int64(len(r)) != n {
+		return vk.Failf("slice-len", "Slice(2^25-word bitmap (description %d), %d, %d) has %d words, want %d", v, from, to, len(r), n)
+	}
+	if len(set) == 0 { // (a map lookup per word is too slow for the 2^25-word results)
+		for j, x := range r {
+			if x != 0 {
+				return vk.Failf("slice-bit", "Slice(2^25-word bitmap (description %d), %d, %d): word %d = %#x, want 0", v, from, to, j, x)
+			}
+		}
+	}
+	seen := 0
+	for j, x := range r {
+		if x == 0 {
+			continue
+		}
+		if x != set[int64(j)] {
+			return vk.Failf("slice-bit", "Slice(2^25-word bitmap (description %d), %d, %d): word %d = %#x, want %#x", v, from, to, j, x, set[int64(j)])
+		}
+		seen++
+	}
+	if seen != len(set) {
+		for j, x := range set {
+			if r[j] != x {
+				return vk.Failf("slice-bit", "Slice(2^25-word bitmap (description %d), %d, %d): word %d = %#x, want %#x", v, from, to, j, r[j], x)
+			}
+		}
+	}
+	if k, bad := gen.MaxBitmapDamage(); bad {
+		return vk.Failf("slice-mutates", "Slice modified word %d of the 2^25-word bitmap", k)
+	}
+	if len(r) <= 1<<16 {
+		for i := range r {
+			r[i] = ^r[i]
+		}
+		vk.ScribbleU64(r)
+		if k, bad := gen.MaxBitmapDamage(); bad {
+			gen.UseMax((v + 1) % gen.MaxVariants) // rewrite the shared array for whoever comes next
+			return vk.Failf("slice-result-aliases-argument", "overwriting the result of Slice(bm, %d, %d) changed word %d of the 2^25-word input", from, to, k)
+		}
+	}
+	return nil
+}
+
+// checkMaxGetw: Getw at the top of the largest bitmap, every width.
+func checkMaxGetw(v int, w int32) *vk.Failure {
+	if v < 0 || v >= gen.MaxVariants || w < 1 || w > 64 || 64%w != 0 {
+		return nil
+	}
+	words := gen.UseMax(v)
+	n := (gen.MaxTop + 1) / int64(w)
+	is := []int64{0, 1, n - 1, n - 2, n - 3, n - 64/int64(w), n - 64/int64(w) - 1, n / 2, n/2 - 1}
+	for _, p := range gen.MaxProbes() {
+		is = append(is, p/int64(w))
+	}
+	for _, i := range is {
+		if i < 0 || i >= n {
+			continue
+		}
+		want := uint64(0)
+		for k := int64(0); k < int64(w); k++ {
+			want |= gen.MaxBit(i*int64(w)+k) << uint(k)
+		}
+		var g uint64
+		if f := vk.Try(fmt.Sprintf("Getw(2^25 words, i=%d, w=%d)", i, w), func() { g = bitmap.Getw(words, int32(i), w) }); f != nil {
+			return f
+		}
+		if g != want {
+			return vk.Failf("getw", "Getw(2^25-word bitmap (description %d), i=%d, w=%d) = %#x, want %#x", v, i, w, g, want)
+		}
+	}
+	if k, bad := gen.MaxBitmapDamage(); bad {
+		return vk.Failf("getw-mutates", "Getw modified word %d of the 2^25-word bitmap", k)
+	}
+	return nil
+}
+
 func check(c Case) *vk.Failure {
 	switch c.Op {
+	case "maxslice":
+		return checkMaxSlice(c.Max, c.From, c.To)
+	case "maxgetw":
+		return checkMaxGetw(c.Max, c.W)
 	case "join":
 		return checkJoin(c.Values, c.W)
 	case "getw":
@@ -205,6 +298,8 @@ func check(c Case) *vk.Failure {
 func classify(c Case) (bool, []string) {
 	labels := []string{"op:" + c.Op}
 	switch c.Op {
+	case "maxslice", "maxgetw":
+		return true, append(labels, "maximum-bitmap(2^25 words)")
 	case "join":
 		labels = append(labels, fmt.Sprintf("w:%d", c.W))
 		above := false
@@ -358,6 +453,27 @@ func TestGrid(t *testing.T) {
 	}
 	for _, r := range [][2]int32{{0, int32(64 * len(big))}, {1, int32(64*len(big)) - 1}, {63, 64*1024 + 63}, {5, 64*4096 + 5}, {64 * 100, 64 * 16000}} {
 		checker.Run(t, Case{Op: "slice", Words: big, From: r[0], To: r[1], Class: "grid-long-bitmap"})
+	}
+	// exactly 2^31 bits: the largest positions an int32 holds
+	top := int32(gen.MaxTop)
+	for v := 0; v < gen.MaxVariants; v++ {
+		gen.UseMax(v)
+		rs := [][2]int32{{top - 100, top}, {top - 64, top}, {top - 63, top}, {top - 62, top}, {top - 1, top}, {top, top}, {top - 130, top - 3}, {top - 195, top}, {top - 255, top}, {top - 129, top - 1}, {top - 4000, top}, {0, 130}}
+		for _, k := range gen.MaxSetWords() {
+			if lo := int64(k)*64 - 5; lo >= 0 && lo+75 <= int64(top) {
+				rs = append(rs, [2]int32{int32(lo), int32(lo + 75)})
+			}
+		}
+		for _, r := range rs {
+			checker.Run(t, Case{Op: "maxslice", Max: v, From: r[0], To: r[1], Class: "grid-maximum"})
+		}
+		for _, w := range widths {
+			checker.Run(t, Case{Op: "maxgetw", Max: v, W: w, Class: "grid-maximum"})
+		}
+	}
+	if vk.Pick(0, 1) == 1 { // bit-by-bit over 2^31 positions: seconds, thorough only
+		checker.Run(t, Case{Op: "maxslice", Max: 0, From: 0, To: top, Class: "grid-maximum-whole"})
+		checker.Run(t, Case{Op: "maxslice", Max: 2, From: 63, To: top, Class: "grid-maximum-whole"})
 	}
 	vk.MarkExhaustive("Slice: 12 bitmaps of <= 3 words x all (from,to); Join: all widths x lengths 0..20 x 3 value styles; Getw: all widths on those results at every index")
 }
